@@ -16,45 +16,73 @@ LOOP_LABELS = ["unreg_due_victim_in_callback", "unreg_self_in_callback", "handle
 PROPS = {
     "C01": dict(
         level="exploration", labels=LOOP_LABELS,
-        campaigns=[("loop", ["profile=all"], 24000, 400000), ("loop", ["profile=all", "big=1"], 6000, 150000),
-                   ("loop", ["profile=fd"], 6000, 100000)],
+        campaigns=[("loop", ["profile=all"], 100000, 2000000), ("loop", ["profile=all", "big=1"], 30000, 600000),
+                   ("loop", ["profile=fd"], 20000, 400000)],
         rule="cases = online-decoded loop programs (register/unregister/set-handler/post from setup and callbacks over fds, timers, tasks, events, raw events; 4 poll methods; malloc/free-at-unregister or slot-reuse allocation) from seeded PRNG bytes; non-trivial = the case executed, inside a callback, an unregister of an object that was due in that iteration and not yet dispatched, or of the running object itself; distinct = distinct hash of the executed action sequence + configuration",
         assumptions=["objects are freed/poisoned by the harness at the instant unregister returns; stale accesses are visible through AddressSanitizer or through a stale cookie cell",
                      "signal/wait/inotify object kinds are exercised by the C10/C11/C20 targets, which apply the same rule"],
     ),
     "C02": dict(
         level="exploration", labels=LOOP_LABELS,
-        campaigns=[("loop", ["profile=fd"], 30000, 500000), ("loop", ["profile=fd", "big=1"], 6000, 150000), ("loop", ["profile=all"], 4000, 100000)],
+        campaigns=[("loop", ["profile=fd"], 100000, 2000000), ("loop", ["profile=fd", "big=1"], 30000, 600000), ("loop", ["profile=all"], 20000, 400000)],
         rule="cases = fd-centred loop programs (handlers cleared/re-set, interest changes, peer traffic/close from callbacks and while blocked) from seeded PRNG bytes; ground truth = poll(2) on every registered harness descriptor at every wait; non-trivial = a handler went NULL->non-NULL (or was registered) while the kernel condition already held, or a condition arose while the loop was blocked; distinct = executed action sequence hash",
         assumptions=["epoll and poll consult the same kernel ->poll callbacks, so poll(2) on the descriptor is the ground truth for both back ends",
                      "starvation rule allows one iteration of slack (two consecutive polls) because a level-triggered event may legitimately slip one epoll batch"],
     ),
     "C03": dict(
         level="exploration", labels=LOOP_LABELS,
-        campaigns=[("loop", ["profile=fd"], 30000, 500000), ("loop", ["profile=fd", "big=1"], 6000, 150000), ("loop", ["profile=all"], 4000, 100000)],
+        campaigns=[("loop", ["profile=fd"], 100000, 2000000), ("loop", ["profile=fd", "big=1"], 30000, 600000), ("loop", ["profile=all"], 20000, 400000)],
         rule="cases = fd-centred loop programs with handler-variant and cookie changes and struct reuse; every fd callback is checked against the shadow (registered, installed variant, current cookie), the ground-truth snapshot of the preceding poll, and a once-per-iteration rule; non-trivial = a descriptor was ready at one poll and not ready at the next while still registered, or a struct was reused while its descriptor was ready; distinct = executed action sequence hash",
         assumptions=["same ground truth as C02"],
     ),
     "C04": dict(
         level="exploration", labels=LOOP_LABELS,
-        campaigns=[("loop", ["profile=timer"], 30000, 500000), ("loop", ["profile=timer", "big=1"], 6000, 150000), ("loop", ["profile=all"], 4000, 100000)],
+        campaigns=[("loop", ["profile=timer"], 100000, 2000000), ("loop", ["profile=timer", "big=1"], 30000, 600000), ("loop", ["profile=all"], 20000, 400000)],
         rule="cases = timer-centred loop programs under a virtual clock (past/zero/equal/sub-ms/ms/far expiries, re-arm from handlers, fd wake-ups engaging the kernel-timer path, clock increments, EINTR); oracles: exactly once, never early (thread's last clock reading >= expiry), no oversleep (blocking deadline <= earliest expiry, +1 ms on ms-granular waits), due timer not left unfired over two waits, no spin; non-trivial = kernel-timer path armed and later cleared/re-armed, or a past/zero expiry, or a re-arm from a handler; distinct = executed action sequence hash",
         assumptions=["virtual clock: time advances only at clock readings (generated increments), BURN actions (followed by iv_invalidate_now as documented) and inside waits",
                      "timerfd is emulated by an eventfd fired when virtual time passes the programmed absolute deadline"],
     ),
     "C06": dict(
         level="exploration", labels=LOOP_LABELS,
-        campaigns=[("loop", ["profile=task"], 30000, 500000), ("loop", ["profile=task", "big=1"], 6000, 150000), ("loop", ["profile=all"], 4000, 100000)],
+        campaigns=[("loop", ["profile=task"], 100000, 2000000), ("loop", ["profile=task", "big=1"], 30000, 600000), ("loop", ["profile=all"], 20000, 400000)],
         rule="cases = task-centred loop programs (self/other/fresh/already-run re-registration from task handlers and other callbacks, ready fds and due timers alongside); oracles: exactly once, unregistered on entry, no blocking wait while a task is registered, a task slot runs at most once between two kernel polls; non-trivial = a task that already ran in this round was re-registered from a task handler while a descriptor or timer was due, or tasks were pending on >=5 consecutive iterations on epoll-timerfd (zero deadline through the kernel timer); distinct = executed action sequence hash",
         assumptions=[],
     ),
     "C07": dict(
         level="exploration", labels=LOOP_LABELS,
-        campaigns=[("loop", ["profile=life"], 30000, 500000), ("loop", ["profile=life", "big=1"], 6000, 150000), ("loop", ["profile=all"], 4000, 100000)],
+        campaigns=[("loop", ["profile=life"], 100000, 2000000), ("loop", ["profile=life", "big=1"], 30000, 600000), ("loop", ["profile=all"], 20000, 400000)],
         rule="cases = all-kind loop programs with iv_quit anywhere (including before iv_main), failing iv_fd_register_try (closed descriptor / regular file) and failing iv_event_register (descriptor creation EMFILE), budget-driven unregister-everything from any callback, second iv_main round; model = set of registered objects + quit flag; oracles at every wait entry (must not wait when model says return), at return (must not return early), callbacks only inside iv_main and never nested, nothing due at a blocking point, no spin; non-trivial = case with a quit, a failed registration, or zero objects reached from inside a callback; distinct = executed action sequence hash",
         assumptions=[],
     ),
 }
+
+
+ENGINES = [
+    dict(name="vfz", path="harness/vfz.c", serves_properties=["C01", "C02", "C03", "C04", "C06", "C07"],
+         kind_free_text="case driver: choice-sequence decoding, fork-per-case batch workers, result records, replay files; shrinking in bin/vlib.py"),
+    dict(name="vk", path="harness/vk.c", serves_properties=["C01", "C02", "C03", "C04", "C06", "C07"],
+         kind_free_text="virtual kernel boundary (-Wl,--wrap): virtual clock, wait primitives reduced to zero-timeout real polls + generated environment events, emulated timerfd, injectable syscall failures"),
+    dict(name="loop", path="harness/t_loop.c", serves_properties=["C01", "C02", "C03", "C04", "C06", "C07"],
+         kind_free_text="engine A: generated single-threaded loop programs with shadow model and per-property oracles"),
+]
+NOT_APPLICABLE = {}
+
+_COMMON_NOTE = ("trusted: the harness' shadow model and oracles (harness/t_loop.c), the link-time interposition layer (harness/vk.c), the running "
+                "kernel's poll/epoll semantics, clang ASan/UBSan. Generated-input search never establishes absence: the claim is 'no violation in "
+                "the explored cases', with the case counts and label distribution recorded in the evidence file.")
+_TECH = "property-based testing: seeded generated loop programs (online choice-sequence decoding) against the real library under ASan/UBSan with a virtual kernel; shadow-model oracle; choice-sequence shrinking to a replay file"
+for _pid, _txt in {
+    "C01": "exploration of generated register/unregister/free histories over 5 object kinds and 4 poll methods; stale-cookie oracle + AddressSanitizer on objects freed at unregister return",
+    "C02": "exploration of generated fd histories with poll(2) ground truth at every wait; the loop may not block while a wanted band is ready and may not starve it over two polls",
+    "C03": "exploration of generated fd histories; every fd callback is validated against registration state, installed handler variant, cookie, the ground-truth snapshot of the preceding poll and a once-per-iteration rule",
+    "C04": "exploration of generated timer programs under a virtual clock; exactly-once, never-early, no-oversleep (exact to the ns on ns-granular waits and the kernel timer), due-not-fired and spin oracles",
+    "C06": "exploration of generated task programs; exactly-once, unregistered-on-entry, no blocking with a task pending, at most one run per task slot between two kernel polls, timers not starved by task chains",
+    "C07": "exploration of generated life-cycle programs (quit, failing registrations, zero objects via callbacks, second iv_main round); model of registered objects decides when iv_main must and must not return; nesting, blocking-point and spin oracles",
+}.items():
+    PROPS[_pid]["level_text"] = _txt
+    PROPS[_pid]["level_note"] = _COMMON_NOTE
+    PROPS[_pid]["technique"] = _TECH
+    PROPS[_pid]["design_ref"] = "DESIGN.md section 3 (%s), sections 2.1-2.2" % _pid
 
 
 def _corpus(prop):
